@@ -310,8 +310,12 @@ def report(ctx: click.Context, tjp_file: Optional[str], output_csv: bool, output
             click.echo(f"Processing: {tjp_path.name}", err=True)
 
         # Calculate SHA256 hash of the input file for report_id
-        with open(tjp_path, "rb") as f:  # type: ignore[assignment]
-            file_hash = hashlib.sha256(f.read()).hexdigest()  # type: ignore[arg-type]
+        try:
+            with open(tjp_path, "rb") as f:  # type: ignore[assignment]
+                file_hash = hashlib.sha256(f.read()).hexdigest()  # type: ignore[arg-type]
+        except OSError as e:
+            # The file is there but cannot be read: an input problem (exit 1), not a failed report
+            raise FileNotFoundError(f"Cannot read file: {tjp_path} ({e.strerror or e})") from e
 
         if verbose:
             logger.debug("Input file SHA256: %s", file_hash)
